@@ -91,3 +91,20 @@ def rpc_candidates(n, rng=None):
 
 def exc_sig(e):
     return f"{type(e).__name__}: {str(e)[:200]}"
+
+
+def pow2_geometry(typ, k, rng):
+    """(lines, pixels, rpc) such that the bytes spanned by one full group of rpc lines (first sample of the first line ..
+    last sample of the last line) are exactly 2**k: round sizes are where block-splitting code changes behaviour"""
+    prefix, bps = (192, 2) if typ == "IU2" else (544, 8)
+    sols = []
+    for n in range(1, 65):
+        if (2 ** k + prefix) % n:
+            continue
+        reclen = (2 ** k + prefix) // n
+        if reclen > prefix and (reclen - prefix) % bps == 0:
+            sols.append((n, (reclen - prefix) // bps))
+    if not sols:
+        return None
+    n, p = rng.choice(sols)
+    return n * rng.choice([1, 2, 3]) + rng.choice([0, 0, 1, n // 2]), p, n
